@@ -96,6 +96,20 @@ func main() {
 		os.Exit(2)
 	}
 
+	if id == "C05" {
+		// the CLI tool is one of C05's entry points: build it from the current tree as well
+		a := []string{"build", "-o", filepath.Join(work, "bin", "c05-parsefile")}
+		if *modfile != "" {
+			a = append(a, "-modfile="+*modfile)
+		}
+		cb := exec.Command("go", append(a, "github.com/Comcast/gots/v2/cli")...)
+		cb.Dir = filepath.Join(*root, "harness")
+		if out, err := cb.CombinedOutput(); err != nil {
+			fmt.Printf("INCONCLUSIVE property=%s reason=cli/parsefile does not build against the current tree\n%s\n", id, out)
+			os.Exit(2)
+		}
+	}
+
 	if *replay != "" {
 		doReplay(bin, *replay)
 		return
@@ -174,8 +188,20 @@ func main() {
 				}
 				// the child died without a report: attribute to the persisted case
 				death := map[string]interface{}{"exit": fmt.Sprint(werr)}
-				if b, err := os.ReadFile(cur); err == nil {
-					json.Unmarshal(bytes.TrimSpace(b), &death)
+				if b, err := os.ReadFile(cur); err == nil && len(b) > 4 {
+					// 4-byte length, one JSON header line, then the raw input the child was working on
+					n := int(b[0]) | int(b[1])<<8 | int(b[2])<<16 | int(b[3])<<24
+					if n > 0 && 4+n <= len(b) {
+						b = b[4 : 4+n]
+						hdr, raw := b, []byte(nil)
+						if i := bytes.IndexByte(b, '\n'); i >= 0 {
+							hdr, raw = b[:i], b[i+1:]
+						}
+						json.Unmarshal(hdr, &death)
+						if len(raw) > 0 {
+							death["input_hex"] = fmt.Sprintf("%x", raw)
+						}
+					}
 				}
 				tail, _ := os.ReadFile(filepath.Join(runDir, fmt.Sprintf("shard%d.%d.log", s, attempt)))
 				if len(tail) > 1500 {
